@@ -7,7 +7,6 @@ import (
 	"strings"
 
 	criteria_concealment "github.com/Azbesciak/RealDecisionMaker/lib/logic/biases/criteria-concealment"
-	criteria_mixing "github.com/Azbesciak/RealDecisionMaker/lib/logic/biases/criteria-mixing"
 	"github.com/Azbesciak/RealDecisionMaker/lib/model"
 )
 
@@ -23,26 +22,11 @@ import (
 
 // ---------- printing the reports ----------
 
-func concealReportSX(res *model.BiasedResult) SX {
-	rep := res.Props.(criteria_concealment.CriteriaConcealmentResult)
-	if len(rep.AddedCriteria) != 1 {
-		panic(fmt.Sprintf("concealment reported %d added criteria", len(rep.AddedCriteria)))
-	}
-	a := rep.AddedCriteria[0]
-	return L(Str(a.Id), Str(string(a.Type)), Num(a.ValuesRange.Min), Num(a.ValuesRange.Max), KMapF(a.AlternativesValues), additionSX(a.MethodParameters))
-}
 
-func compSX(c criteria_mixing.CriterionComponent) SX {
-	return L(Str(c.Id), Str(string(c.Type)), KMapF(c.ScaledValues))
-}
 
-func mixReportSX(res *model.BiasedResult) SX {
-	if res.Props == nil {
-		return L(A("nil"))
-	}
-	m := res.Props.(criteria_mixing.MixedCriterion)
-	return L(A("mixed"), compSX(m.Component1), compSX(m.Component2), compSX(m.NewCriterion), additionSX(m.Params))
-}
+
+
+
 
 // ---------- props generators with boundary / invalid values ----------
 
